@@ -263,6 +263,11 @@ func (n *xnode) valueSites(out map[int]bool) {
 	if n.k == xBin && n.op == "between" {
 		out[n.pos] = true
 	}
+	if n.k == xCall && (n.s == "cosine_distance" || n.s == "l2_distance") {
+		// the distance functions fail with plain errors on data: an element of a list of strings that
+		// does not parse, lists of different length (key -3: plain errors are data-dependent here)
+		out[-3] = true
+	}
 	for _, k := range n.kids {
 		k.valueSites(out)
 	}
@@ -515,6 +520,7 @@ type c14Replay struct {
 	TypeErr  string   `json:"operand_type_error_at_execution,omitempty"`
 	ValueErr string   `json:"data_dependent_error_at_execution,omitempty"`
 	Panic    string   `json:"panic,omitempty"`
+	T1Eval   string   `json:"t1_eval,omitempty"`
 }
 
 var c14Stores = [][][2]string{
@@ -605,7 +611,7 @@ func c14Observe(q string, sites map[int]bool, execute bool) c14Obs {
 				continue
 			}
 			cls, pos := errCls(res.Err)
-			if cls == 1 && sites[pos] {
+			if (cls == 1 && sites[pos]) || (cls == 3 && sites[-3]) {
 				o.valueErr = res.Err.Error()
 				continue
 			}
@@ -687,8 +693,24 @@ func c14Case(e *emitter, s *xstmt, stream, fault, base string, mode int) (int, c
 	if o.tree != "" {
 		tree = "(Some " + o.tree + ")"
 	}
-	term := fmt.Sprintf("Case %s %d %d (%d) %d %s %s", s.coq(), mode, o.cls, o.pos, o.calls, tree, coqBool(o.typeErr != ""))
+	// T1: outcome classes of Execute / ExecuteBatch on the checked trees, per stored pair / chunk
+	evStore, evTrees := "[]", "[]"
+	var evInfo t1EvalInfo
+	if o.cls == 0 && mode != 2 && t1EvalStreams[stream] && (s.form == "select" || s.form == "delete") {
+		evStore, evTrees, evInfo = t1EvalTerms(q, t1StoreFor(s))
+		rp.T1Eval = evInfo.summary
+	}
+	term := fmt.Sprintf("Case %s %d %d (%d) %d %s %s %s %s", s.coq(), mode, o.cls, o.pos, o.calls, tree, coqBool(o.typeErr != ""), evStore, evTrees)
 	idx := e.add(term, rp, true)
+	if evInfo.trees > 0 {
+		e.count("t1_eval_statements")
+		for k, v := range evInfo.dist {
+			e.m.Dist[k] += v
+		}
+		if evInfo.panic != "" {
+			e.fail(idx, "evaluating a tree of an accepted statement panicked: "+evInfo.panic, "C14/t1-evaluation-panic", rp)
+		}
+	}
 	e.count("stream=" + stream)
 	e.count("form=" + s.form)
 	if o.cls == 0 {
@@ -1394,6 +1416,9 @@ func runC14(c *runCtx) error {
 	c14FieldRefs(e, full, sample)
 	// ---------------------------------------------------------------- known-finding shapes
 	c14Known(e)
+	// ---------------------------------------------------------------- T1: every scalar function with
+	// well-typed and ill-typed arguments at several depths, list-valued IN
+	t1Functions(e, full, sample)
 	// ---------------------------------------------------------------- typed statements and their mutants
 	n, perSlot := 60, 1
 	if c.thorough() || c.search {
